@@ -250,6 +250,30 @@ def run_case(spec):
             if not np.allclose(a_work.points, r.points, rtol=0, atol=1e-12 * scale * max(1, fac)):
                 viol("inplace_ne_noninplace", {"op": name})
             check_stored(a_work, name + "_inplace")
+        # identity transforms are copies as well (a zero offset, zero angle, unit factors are ordinary arguments)
+        for nm, fn in (("translate(0,0)", lambda: a.translate(0, 0)), ("translate(0.0,0.0)", lambda: a.translate(0.0, 0.0)), ("rotate(0)", lambda: a.rotate(0)),
+                       ("scale(1,1)", lambda: a.scale(xfact=1, yfact=1))):
+            r0 = fn()
+            cnt("aliasing_checks")
+            if r0 is a or np.shares_memory(r0.points, a.points):
+                viol("transform_result_aliases_original", {"op": nm})
+            elif not np.allclose(r0.points, a.points, rtol=0, atol=1e-12 * scale):
+                viol("identity_transform_moves_polygon", {"op": nm})
+        # origin="centroid": the centre of MASS of the polygon is the fixed point of the transformation
+        cnt("transform_checks")
+        pts_ = a.points[:-1]
+        x_, y_ = pts_[:, 0], pts_[:, 1]
+        cr = x_ * np.roll(y_, -1) - np.roll(x_, -1) * y_
+        A_ = cr.sum() / 2
+        cm = np.array([((x_ + np.roll(x_, -1)) * cr).sum(), ((y_ + np.roll(y_, -1)) * cr).sum()]) / (6 * A_)
+        degc = float(rng.uniform(20, 340))
+        fxc, fyc = float(rng.uniform(0.3, 2.5)), float(rng.uniform(0.3, 2.5))
+        for nm, rr_, mpc in (("rotate", a.rotate(degc, origin="centroid"), lambda X: (X - cm) @ np.array([[math.cos(math.radians(degc)), -math.sin(math.radians(degc))], [math.sin(math.radians(degc)), math.cos(math.radians(degc))]]).T + cm),
+                             ("scale", a.scale(xfact=fxc, yfact=fyc, origin="centroid"), lambda X: (X - cm) * np.array([fxc, fyc]) + cm)):
+            mvc = mpc(pts_)
+            ddc = np.min(np.linalg.norm(mvc[:, None, :] - rr_.points[None, :-1, :], axis=2), axis=1)
+            if ddc.max() > 1e-9 * scale * max(1.0, fxc, fyc):
+                viol("transform_about_centroid_wrong", {"op": nm, "max_vertex_error": float(ddc.max()), "scale": scale})
         # set operations without operands are copies too
         for nm, fn in (("union()", a.union), ("intersection()", a.intersection), ("difference()", a.difference)):
             r0 = fn()
